@@ -83,3 +83,52 @@ fn rec(
         chosen.pop();
     }
 }
+
+/// surface-syntax deviations (they do not change the meaning of the definition); append them LAST so that
+/// they see the attributes added by the other deviations
+pub fn syntax_devs(literals: bool, ints: bool, attrs: bool, docs: bool) -> Vec<Dev> {
+    let mut d = Vec::new();
+    if literals {
+        for f in ["raw-literals", "escaped-literals"] {
+            d.push(dev(format!("syntax: {}", f), &["synlit"], move |s| {
+                if !s.has_strum_literal() {
+                    return false;
+                }
+                s.syntax.push(f.to_string());
+                true
+            }));
+        }
+    }
+    if ints {
+        for f in ["hex-ints", "underscore-ints", "suffixed-ints"] {
+            d.push(dev(format!("syntax: {}", f), &["synint"], move |s| {
+                if !s.variants.iter().any(|v| v.props.iter().flatten().any(|(_, l)| matches!(l, crate::spec::PropLit::I(_)))) {
+                    return false;
+                }
+                s.syntax.push(f.to_string());
+                true
+            }));
+        }
+    }
+    if attrs {
+        for f in ["trailing-commas", "cfg_attr"] {
+            d.push(dev(format!("syntax: {}", f), &["synattr"], move |s| {
+                if !s.has_strum_attr() {
+                    return false;
+                }
+                s.syntax.push(f.to_string());
+                true
+            }));
+        }
+    }
+    if docs {
+        d.push(dev("syntax: block-docs", &["syndoc"], |s| {
+            if !s.variants.iter().any(|v| v.docs.iter().any(|(t, f)| *f == crate::spec::DocForm::Comment && !t.is_empty())) {
+                return false;
+            }
+            s.syntax.push("block-docs".to_string());
+            true
+        }));
+    }
+    d
+}
